@@ -1,7 +1,7 @@
 """C07 registry: sketching collectors, behavioural simulation (Agent, Environment) and advertising."""
 from __future__ import annotations
 
-from props.c07_core import Drv, Event
+from props.c07_core import Drv, Event, P, R
 
 from happysimulator.components.advertising import AdPlatform, Advertiser, AudienceTier
 from happysimulator.components.behavior import (Agent, DeGrootModel, Environment, PersonalityTraits, SocialGraph,
@@ -40,7 +40,7 @@ class _BehaviorDrv(Drv):
         names = ["ann", "bob", "cyd"]
         model = UtilityModel(utility_fn=lambda c, ctx: 0.9 if c.action == "buy" else 0.1)
         self.agents = [Agent(name=n, traits=PersonalityTraits.big_five(openness=0.8, agreeableness=0.6),
-                             decision_model=model, seed=j + 1, action_delay=cfg.L, heartbeat_interval=1.0)
+                             decision_model=model, seed=j + 1, action_delay=cfg.L, heartbeat_interval=P(1.0))
                        for j, n in enumerate(names)]
         for a in self.agents:
             a.on_action("buy", lambda ag, choice, event: [Event(time=ag.now, event_type="Purchase",
@@ -85,7 +85,7 @@ class AdvertisingDrv(Drv):
         tiers = [AudienceTier("niche", base_monthly_sales=100, base_cpa=5.0),
                  AudienceTier("broad", base_monthly_sales=400, base_cpa=18.0)]
         self.adv = Advertiser("advertiser", product_price=50.0, production_cost=30.0, tiers=tiers,
-                              platform=self.platform, evaluation_interval=0.5)
+                              platform=self.platform, evaluation_interval=P(0.5))
         return [self.platform, self.adv]
 
     def init(self):
